@@ -6,24 +6,29 @@ from common import sh2
 LEVEL = "proof"
 MANIFEST = {
     "technique": "Coq proof over hand-written Gallina models with explicit panic / cost semantics (FixedSliceReader, box headers, "
-                 "both container child loops, the file-assembly state machine over box shapes, the count-guard-then-allocate prologues "
-                 "of 29 table-box decoders) + differential correspondence (extracted OCaml vs Go: outcome class, grouping, decoded entry "
+                 "both container child loops, the file-assembly state machine over box shapes incl. the mfro -> mfra -> tfra look-back, the count-guard-then-allocate prologues "
+                 "of 29 table-box decoders, 14 of them composed as leaves of the box-tree decoders) + differential correspondence (extracted OCaml vs Go: outcome class, grouping, decoded entry "
                  "count, allocation bucket) + structured mutation fuzzing and count/length-field inflation in an isolated worker process",
     "level_text": "PROVED for all inputs (coq/c04/C04Theorems.v): every bits.FixedSliceReader method keeps 0 <= pos <= len and never "
                   "panics under the stated caller guards (with machine-checked refutations for negative lengths, SkipBytes overflow, "
                   "ReadPossiblyZeroTerminatedString and LookAhead); DecodeHeader/DecodeHeaderSR and DecodeBox/DecodeBoxSR with both "
                   "container child loops return a box, EOF or an error for every byte string, never panic, terminate within fuel len+1 "
-                  "with ticks+alloc <= 2*len+29 (SliceReader path) / 6*len+29 (io.Reader path) (leaf bodies opaque: any leaf decoder satisfying the stated contract, instantiated for mdat/free/skip/unknown); the file "
+                  "with ticks+alloc <= 2*len+29 (SliceReader path) / 6*len+29 (io.Reader path) (leaf bodies opaque: any leaf decoder satisfying the stated contract, instantiated for mdat/free/skip/unknown); "
+                  "C04_tree_alloc_partial: the same loops under a refactored two-tier leaf contract (a leaf costs 6*consumed+20700 when it returns a box, 6*remaining+20700 when it returns an error) with the "
+                  "modelled prologues of trun stts ctts stsc stsz stco co64 stss sdtp saiz saio sbgp elst tfra as leaves (every other leaf: any decoder under the old contract): for EVERY byte string below 32 GiB the "
+                  "decode of the whole tree returns, bytes requested and iterations each <= 2600*len+20740 (SliceReader) / 2601*len+20771 (io.Reader); the file "
                   "assembly (DecodeFile/DecodeFileSR loops, AddChild, startSegmentIfNeeded, findAndReadMfra, senc second pass), "
                   "File.Encode/EncodeSW in both modes and File.Info never panic on any list of top-level box shapes under any decode "
-                  "options, for the REPAIRED text; the pinned text is refuted at 9 sites by concrete shape lists; the prologues (size guard "
+                  "options, for the REPAIRED text; the pinned text is refuted at 9 sites by concrete shape lists; findAndReadMfra over EXTENDED shapes (C04_mfra_lookback_total / C04_assembly_x_total: mfro absent, "
+                  "stand-alone or with ANY ParentSize - too small, too large, pointing at a non-mfra box or inside a box -, an mfra at top level or inside an mdat payload, any number of tfra boxes with any entry "
+                  "counts / track ids / moof offsets) never panics, the offset loop stays in range because of the length comparison before it (C04_mfra_offset_loop_in_range) and panics without it as soon as a later tfra is longer (C04_mfra_length_check_needed); the prologues (size guard "
                   "expectedSize / remaining bytes, per-entry size as a function of version and flags, make([]T, n) with its element size, "
                   "entry loop with the accumulated-error reader) of trun stts ctts stsc stsz stco co64 stss sdtp saiz saio senc sbgp subs elst tfra "
                   "sidx pssh ssix tref-type leva uuid(tfxd/tfrf/piff-senc/other) ftyp styp hvcC avcC (array / NALU loops) tlou/alou, both phases of senc (DecodeSenc/SR guard, then ParseReadBox/parseAndFillSamples: <= 72*len+360 bytes) and the whole sgpd entry loop (seig/roll/rap/alst/other) return for EVERY header and body, request at most a*size+b bytes and loop at "
                   "most size/entry+c times (C04_alloc_<box>; box level on both paths (the senc second phase has its own theorem): <= 172*len+1048560 bytes (sgpd's factor; <= 12*len for the others), <= 6*len+65536 iterations for "
                   "every byte string below 32 GiB), with machine-checked refutations for the pinned sgpd/alst text (4 GiB from 28 bytes, "
                   "repaired) and for ctts at exactly 32 GiB (uint32 wrap of entryCount+1, not reproducible). "
-                  "EXPLORED only: the other ~100 leaf decoder bodies, all encoder/Info bodies, the value-dependent tails of ssix/leva, "
+                  "EXPLORED only: the other ~100 leaf decoder bodies, all encoder/Info bodies (no Info loop is modelled), sidx/subs/pssh and the other unguarded table boxes as leaves of a tree (their prologues are proved per box only), the value-dependent tails of ssix/leva, "
                   "real wall-clock time and real heap (the model's ticks are "
                   "not seconds): structured mutation fuzzing of all testdata files and boxes, and count/length-field inflation (0, 1, exact, "
                   "exact+1, 1024, 1025, 2^16, 2^22, 2^31-1, 2^31, 2^32-4, 2^32-1 clipped to the field width, the guard-boundary values (payload-d)/e and +1, all fields of a box jointly) of every count or length field of "
@@ -33,7 +38,9 @@ MANIFEST = {
     "level_note": "Trusted: Coq kernel, extraction, OCaml/Go glue, the shape renderer. The models are hand transcriptions tied to /repo "
                   "by the correspondence on generated inputs only; the prologue models count the bytes REQUESTED with make/append (Go's append "
                   "growth factor and allocator rounding are trusted: measured bytes must lie between model/2 (tables >= 128 KiB) and "
-                  "8*model + 64*len + 1 MiB). io.Reader is a bytes.Reader (no I/O errors). Shapes carry clear "
+                  "8*model + 64*len + 1 MiB). As leaves of a tree the 14 guarded table decoders leave the reader hdr.Size-8 bytes after the header and report Size() = hdr.Size (what their size guard implies; sdtp: the payload): "
+                  "modelled, tied by the G correspondence stream. The extended shapes say where an mfro / mfra starts; the renderer's promise (the name mfra appears exactly there) is asserted on every rendered file. "
+                  "io.Reader is a bytes.Reader (no I/O errors). Shapes carry clear "
                   "(unencrypted) tracks and no sbgp/sgpd.",
 }
 
@@ -61,6 +68,7 @@ def run(ctx):
         "model: coq/c04/C04Model.v (bits/fixedslicereader.go, mp4/box.go DecodeHeader/DecodeBox/readBoxBody, mp4/boxsr.go "
         "DecodeHeaderSR/DecodeBoxSR, mp4/container.go both child loops) and coq/c04/C04AsmModel.v (mp4/file.go, boxsr.go file loops, "
         "traf.go ParseReadSenc, moof.go/fragment.go/mediasegment.go/initsegment.go Encode, Info traversal) are hand transcriptions",
+        "model: coq/c04/C04MfraModel.v (mp4/file.go findAndReadMfra, mfro.go TryDecodeMfro over extended shapes) and coq/c04/C04TreeModel.v (table decoders as leaves) are hand transcriptions",
         "model: coq/c04/C04AllocModel.v (prologues of mp4/trun.go stts.go ctts.go stsc.go stsz.go stco.go co64.go stss.go sdtp.go saiz.go "
         "saio.go senc.go sbgp.go subs.go elst.go tfra.go sidx.go pssh.go ssix.go tref.go leva.go uuid.go ftyp.go styp.go sgpd.go samplegroupentries.go hvcc.go avcc.go lou.go, hevc/hevcdecoderconfigurationrecord.go avc/avcdecoderconfigurationrecord.go) hand transcription; "
         "element sizes are Go 64-bit struct layouts",
@@ -72,7 +80,7 @@ def run(ctx):
         "64 MiB request from a 24-byte box is an overalloc), "
         "address space of harness and workers limited to %d KiB" % ULIMIT_KB,
         "leaf decoder bodies are opaque in the container proofs (contract: no panic, reader invariant kept, cost <= bytes consumed + 1); "
-        "the table-box prologues are modelled separately (C04AllocModel.v) and not composed with the container theorem",
+        "14 exact-size-guard table prologues are composed with the container loops (C04TreeModel.v); the unguarded ones (sidx subs pssh sgpd ...) are modelled per box only",
     ]
     exe, model = build(ctx)
     pr = ctx.proofs("c04", "C04Theorems.v")
@@ -94,6 +102,10 @@ def run(ctx):
     ctx.notes["correspondence"] = {
         "cases": len(lines), "mismatches": len(mism), "distinct_cases": distinct, "kinds": kinds,
         "exhaustive_shape_list_length": exh, "shape_alphabet": 29,
+        "trailing_index": "T: every combination of entry counts 0..3 for 0..3 tfra boxes after 1 and after 3 fragments; 14 tfra sets (first shorter/longer than later ones, duplicate ids with the first / among later ones, "
+                          "differing / zero / non-moof offsets, up to 4 boxes, tfra version 0/1 and all length-size fields) x 18 mfro variants (correct, absent, ParentSize -1 -4 -8 +1 0 1 16 huge L L+1, previous box, "
+                          "stand-alone mfro, mfra inside an mdat) x 6 contexts x {RN1 RL1 RN3 RL3 RN0 SN1} + random ones; G: random box trees whose leaves include the 14 guarded table boxes (0..5 entries, inflated / "
+                          "deflated counts, trailing byte, 16-byte header) with the B mutations, both paths: tree dump with every Size(), end position",
         "input_distribution": "R: every reader op x small/hostile argument x every position of 6 buffers + random histories (half with hostile "
                               "ints); B: random box trees over {moov,moof,traf,mfra,udta,dinf | free,skip,mdat,unknown} (large-size headers 1/8) "
                               "with truncation / size-field / large-size corruption, both decode paths; A: all shape lists up to the given length "
